@@ -3,7 +3,7 @@
 Require Import List Arith Bool Lia.
 Require Import Raft.Quorum Raft.QuorumProofs Raft.RaftModel Raft.RaftSys Raft.RaftLog Raft.RaftInv
                Raft.RaftInvBase Raft.RaftInvMain Raft.RaftRefine Raft.RaftSafety Raft.RaftStepProps Raft.RaftSafetySteps Raft.RaftCheck
-               Raft.RaftCC Raft.RaftCCCheck Raft.RaftCCRefine Raft.RaftCCSafety Raft.RaftCCQuorum
+               Raft.RaftCC Raft.RaftCCCheck Raft.RaftCCRefine Raft.RaftCCSafety Raft.RaftCCQuorum Raft.RaftCCInv
                Raft.RaftPV Raft.RaftPVCheck Raft.RaftPVRefine.
 Import ListNotations.
 
@@ -303,7 +303,10 @@ Qed.
    would have to hold two uncommitted changes, contradicting (a); one two or more steps ahead
    already holds the entry by log matching).  The invariant of Raft/RaftInv.v would have to carry
    the configuration with every recorded quorum (votes of a term, acknowledgements of an entry,
-   "never" quorums).  Not done.  Until then schedules with arbitrary chains of changes are
+   "never" quorums).  Not done, except the leader-local half of (a): C15_cc_pending_discipline and
+   C15_cc_conf_proposal_fresh below, and the two preservation lemmas the global half needs at the
+   append steps (RaftCCInv.cc_ok_pending for the leader, RaftCCInv.append_cc_ok for a follower,
+   stated with the hypotheses the invariant supplies at M_append).  Until then schedules with arbitrary chains of changes are
    validated against the model and monitored (no violation seen), not proved. *)
 
 Theorem C15_conf_step_quorums_intersect : forall c op c', wfc c -> apply_cc c op = Some c' ->
@@ -398,6 +401,31 @@ Proof.
   apply (cc_state_machine_safety _ (conf_step_inter c op c' Hw Ha) c page1 x Hx a b i H1 H2).
 Qed.
 Print Assumptions C15_cc_one_change_safe_partial.
+
+(* ingredient (a) of the chain argument, leader-local half, for EVERY reachable state of the
+   membership-change model (no envelope): the configuration-change entries a leader holds above
+   its commit index all lie at or below its pendingConfIndex ... *)
+Theorem C15_cc_pending_discipline : forall boot page1 x, cxreachable boot page1 x ->
+  forall id, n_role (fst (cx_nodes x id)) = Leader ->
+  forall j e, nth_error (n_log (fst (cx_nodes x id))) j = Some e -> isconf (snd e) = true ->
+    n_commit (fst (cx_nodes x id)) <= j -> S j <= snd (cx_nodes x id).
+Proof. intros boot page1 x H id. exact (cc_pending_discipline boot page1 x H id). Qed.
+Print Assumptions C15_cc_pending_discipline.
+
+(* ... hence a leader that accepts a proposed configuration change (appends it as proposed, not
+   as the empty entry a refused change is turned into) holds no uncommitted change at all.  The
+   automatic leave of a joint configuration is covered the same way (RaftCCInv.ready_iter_PD). *)
+Theorem C15_cc_conf_proposal_fresh : forall boot page1 x, cxreachable boot page1 x ->
+  forall id c p, n_role (fst (cx_nodes x id)) = Leader -> isconf p = true ->
+  n_log (fst (fst (handle_cc id c (EvPropose p) (fst (cx_nodes x id)) (snd (cx_nodes x id)))))
+    = n_log (fst (cx_nodes x id)) ++ [(n_term (fst (cx_nodes x id)), p)] ->
+  forall j e, nth_error (n_log (fst (cx_nodes x id))) j = Some e -> isconf (snd e) = true ->
+    j < n_commit (fst (cx_nodes x id)).
+Proof.
+  intros boot page1 x H id c p Hl Hp Hlog.
+  exact (propose_conf_fresh id c p _ _ (cc_pending_discipline boot page1 x H id) Hl Hp Hlog).
+Qed.
+Print Assumptions C15_cc_conf_proposal_fresh.
 
 (* non-vacuity of the membership-change model: in a 3-voter cluster node 1 is elected, proposes
    "add voter 4" (payload 104), replicates it to node 2, commits it and from then on decides with
